@@ -163,7 +163,7 @@ impl Prop for C05 {
         stages.push(Stage {
             name: "corruptions".into(),
             len: n,
-            chunk: (n / 48).max(20),
+            chunk: (n / 20).max(20),
             timeout: Duration::from_secs(1200),
             what: "every single-token deletion / swap / replacement and single-character deletion / duplication of each valid program".into(),
         });
